@@ -48,11 +48,17 @@ def child_env() -> dict[str, str]:
 # Known findings
 # ---------------------------------------------------------------------------
 
+_FINDINGS: list[dict] | None = None
+
+
 def load_findings() -> list[dict]:
-    if not FINDINGS_FILE.exists():
-        return []
-    data = json.loads(FINDINGS_FILE.read_text())
-    return data.get('findings', [])
+    global _FINDINGS
+    if _FINDINGS is None:
+        if not FINDINGS_FILE.exists():
+            _FINDINGS = []
+        else:
+            _FINDINGS = json.loads(FINDINGS_FILE.read_text()).get('findings', [])
+    return _FINDINGS
 
 
 def match_finding(prop: str, witness: dict) -> dict | None:
@@ -100,6 +106,7 @@ class Result:
     assumptions: list = field(default_factory=list)
     exhaustive: bool = False
     extra: dict = field(default_factory=dict)
+    known: dict = field(default_factory=dict)           # known-finding id -> witnesses this run
     t0: float = field(default_factory=time.time)
 
     def count(self, key: str, n: int = 1):
@@ -110,6 +117,13 @@ class Result:
             self.samples.append(s)
 
     def violate(self, witness: dict, cap: int = 200):
+        # a witness of a recorded (not repaired) finding never uses up the
+        # room kept for new violations
+        f = match_finding(self.prop, witness)
+        if f is not None:
+            fid = f.get('id', '?')
+            self.known[fid] = self.known.get(fid, 0) + 1
+            return
         if len(self.violations) < cap:
             self.violations.append(witness)
         self.count('violations_total')
@@ -128,6 +142,8 @@ class Result:
                 self.violations.append(v)
         for r in other.get('inconclusive', []):
             self.inconclusive.append(r)
+        for k, v in other.get('known', {}).items():
+            self.known[k] = self.known.get(k, 0) + v
         for k, v in other.get('extra', {}).items():
             if isinstance(v, list):
                 cur = self.extra.setdefault(k, [])
@@ -155,6 +171,7 @@ class Result:
             'violations': self.violations,
             'inconclusive': self.inconclusive,
             'extra': self.extra,
+            'known': self.known,
         }
 
 
@@ -179,6 +196,9 @@ def finish(res: Result, min_nontrivial: int = 2) -> int:
     EVIDENCE_DIR.mkdir(exist_ok=True)
     new_violations = []
     known_hits: dict[str, tuple[dict, int]] = {}
+    by_id = {f.get('id'): f for f in load_findings()}
+    for fid, cnt in res.known.items():
+        known_hits[fid] = (by_id.get(fid, {'id': fid}), cnt)
     for w in res.violations:
         f = match_finding(res.prop, w)
         if f is None:
